@@ -1,5 +1,4 @@
 import WhatwgUrl.Proofs.Heap
-import WhatwgUrl.Generated.Facts
 /-
   C12 — a URL and its SearchParams describe the same query.
   Property theorems only; the primitives' characterisation lemmas live in Proofs/Heap.lean.
@@ -211,15 +210,5 @@ example : ((((exH1 []).setSearch exI 0 (lit "?x=1&y=2")).1.urls[0]?).map fun o =
 -- hypothesis of `C12_frame_list`
 example : Setter.hash ≠ Setter.search := by decide
 example (p : Pairs) := (C12_frame_list exI (exH1 p) 0 .hash (lit "f") (by decide)).2 _ rfl
-
-/-! ### facts regenerated from the Go source (T1) -/
-
-/-- every exported method of `SearchParams` that changes the list or a pair calls `update()` (write-through to the URL) -/
-theorem C12_mutators_write_through : ∀ m ∈ Generated.spMethods, m.2.2 = true → m.2.1 = true := by decide
-
-/-- `SetSearch` re-initialises the existing list in place (`u.searchParams.init`) or creates it; it never replaces an
-    existing list object (so a handle obtained earlier stays the URL's list) -/
-theorem C12_setsearch_reinit : ∀ c ∈ Generated.callees, c.1 = "Url.SetSearch" →
-    "u.searchParams.init" ∈ c.2 ∧ "u.newUrlSearchParams" ∈ c.2 ∧ "u.parser.BasicParser" ∈ c.2 := by decide
 
 end WhatwgUrl.Props.C12
